@@ -69,7 +69,13 @@ func vp_C07_default() {
 		evType = spec.MRoomAliases
 	}
 	var stateKey *string
-	switch vpChoice("state_key", "nil", "empty", "sender", "other-user", "plain", "sender-server") {
+	switch vpChoice("state_key", "nil", "empty", "sender", "other-user", "plain", "sender-server", "at-sign-only", "at-without-colon", "at-prefix-of-sender") {
+	case "at-sign-only": // the rule is about the first character, whatever follows
+		stateKey = vpStrPtr("@")
+	case "at-without-colon":
+		stateKey = vpStrPtr("@bogus")
+	case "at-prefix-of-sender":
+		stateKey = vpStrPtr(sender[:2])
 	case "sender-server":
 		stateKey = vpStrPtr("x")
 	case "empty":
